@@ -82,6 +82,7 @@ func sortedNames(m map[string]string) []string {
 
 func (Prop) Generate(seed uint64, tier string) *core.Plan {
 	r := simrt.NewRNG(seed)
+	corpus.SetTheme(r)
 	w := Workload{}
 	nsets := 1 + r.Intn(3)
 	for i := 0; i < nsets; i++ {
@@ -372,7 +373,7 @@ func (Prop) Run(p *core.Plan) *core.Result {
 	res := &core.Result{Faults: map[string]int{}, Probes: map[string]int{}}
 	newRaceReports()
 	races0 := raceErrors()
-	world := core.BeginWorld(p, 30000000, false)
+	world := core.BeginWorld(p, 3000000, false)
 	sh := &shared{w: &w, base: world.BaseTime}
 	sh.calls, sh.checks = plenv.Tables(nil, nil)
 	// load phase (single task)
